@@ -1,6 +1,7 @@
 #!/bin/bash
 # One-time setup after a fresh restore: build the harness offline.
 set -e
-cd /verif/mc
+ROOT="$(cd "$(dirname "$0")/.." && pwd)"
+cd "$ROOT/mc"
 export CARGO_NET_OFFLINE=true
 cargo build --offline 2>&1 | tail -3
